@@ -3,7 +3,7 @@
    returned value satisfies P. *)
 From ZV.Common Require Import Base.
 From ZV.C15 Require Import Model ProofsCore ProofsSeq ProofsLz ProofsPz ProofsHex ProofsIo ProofsAll.
-From ZV.C15 Require Import ModelBlob ModelCases ProofsBlob ModelIo2 ProofsIo2 ModelHuff ProofsHuff ModelEntropy ProofsEntropy.
+From ZV.C15 Require Import ModelBlob ModelCases ProofsBlob ModelIo2 ProofsIo2 ModelHuff ProofsHuff ModelEntropy ProofsEntropy ModelFiles ProofsFiles.
 Open Scope N_scope.
 
 (* every modelled parser (39 entry points), every argument, every byte string shorter than 2^60:
@@ -411,3 +411,69 @@ Proof. split; [exact fast_div_unfixed_panics | apply fast_div_fixed_no_panic]. Q
 Check fse_fastdiv_unfixed_refuted :
   fast_div_new false 2147483648 = Panic /\ fast_div_new true 2147483648 <> Panic.
 Print Assumptions fse_fastdiv_unfixed_refuted.
+
+(* MmapVecHeader::validate + MmapVec::<u64>::open (the C19 model mv_open with the outcome layer): no
+   panic, at most twice the file size reserved, and an opened vector only addresses bytes of its file:
+   80 + len * 8 <= file length, so get(i) / as_slice never leave the mapping *)
+Theorem mmap_vec_open_total :
+  forall f, nlen f < 2 ^ 60 ->
+    good (fun '(len, _) => 80 + len * 8 <= nlen f) (2 * nlen f) (mv_open_o f).
+Proof. exact mv_open_o_good. Qed.
+Check mmap_vec_open_total :
+  forall f, nlen f < 2 ^ 60 ->
+    good (fun '(len, _) => 80 + len * 8 <= nlen f) (2 * nlen f) (mv_open_o f).
+Print Assumptions mmap_vec_open_total.
+
+(* ZReorderMap::open (the C19 model ro_parse with the outcome layer): no panic, nothing reserved, and an
+   opened map has no empty run and runs that sum to exactly `size` - the iterator's `seq_length -= 1`
+   cannot underflow and it ends with the last run *)
+Theorem reorder_map_open_total :
+  forall f, good (fun '(size, _, rs) => Forall (fun r => snd r <> 0) rs /\ runs_total rs = size) 0 (ro_open_o f).
+Proof. exact ro_open_o_good. Qed.
+Check reorder_map_open_total :
+  forall f, good (fun '(size, _, rs) => Forall (fun r => snd r <> 0) rs /\ runs_total rs = size) 0 (ro_open_o f).
+Print Assumptions reorder_map_open_total.
+Example reorder_map_open_nontrivial :
+  ro_cell [5; 0; 0; 0; 0; 0; 0; 0; 1; 0; 0; 0; 0; 0; 0; 0;  200; 0; 0; 0; 0; 3;  14; 0; 0; 0; 0; 2]
+  = Ok [5; 5; 8]%Z 0.
+Proof. vm_compute. reflexivity. Qed.
+
+(* Dictionary::deserialize: no panic, the sequences copied never exceed the bytes present, whatever
+   the entry count says *)
+Theorem dictionary_deserialize_total :
+  forall data, nlen data < 2 ^ 60 -> good (fun _ => True) (nlen data) (dict_deser data).
+Proof. exact dict_deser_good. Qed.
+Check dictionary_deserialize_total :
+  forall data, nlen data < 2 ^ 60 -> good (fun _ => True) (nlen data) (dict_deser data).
+Print Assumptions dictionary_deserialize_total.
+Example dictionary_deserialize_nontrivial :
+  dict_deser [2; 0; 0; 0;  1; 0; 97; 0; 0; 0; 0; 1; 0; 0; 0;  1; 0; 97; 5; 0; 0; 0; 1; 0; 0; 0] = Ok [1]%Z 2.
+Proof. vm_compute. reflexivity. Qed.
+
+(* SimdLz77Compressor::decompress: the match stream decodes without panic, copy_backward_reference is
+   only reached with 1 <= distance <= output length (no underflow, no `i % 0`), the output stays within
+   the 100 MiB limit; with the distance check left to a debug_assert a 10-byte stream divides by zero *)
+Theorem simd_lz77_decompress_total :
+  (forall data, good (fun n => n <= MAX_DECOMPRESSED) 0 (slz_dec true data)) /\
+  (exists data, nlen data = 10 /\ slz_dec false data = Panic /\ slz_dec true data = Err 0).
+Proof.
+  split; [exact slz_dec_good|]. exists slz_dist0.
+  split; [reflexivity | split; [exact slz_unchecked_panics | exact slz_checked_errs]].
+Qed.
+Check simd_lz77_decompress_total :
+  (forall data, good (fun n => n <= MAX_DECOMPRESSED) 0 (slz_dec true data)) /\
+  (exists data, nlen data = 10 /\ slz_dec false data = Panic /\ slz_dec true data = Err 0).
+Print Assumptions simd_lz77_decompress_total.
+Example simd_lz77_nontrivial : slz_dec true [2 + 8 * 1; 8 + 16 * 3; 0] = Ok 10 0.
+Proof. vm_compute. reflexivity. Qed.
+
+(* hex_decode(&str) = hex_decode_bytes on the UTF-8 bytes: any byte of a non-ASCII character (>= 128) is
+   reported as an error, for every string (hex_decode_total gives no panic / the reservation) *)
+Theorem hex_decode_str_total :
+  forall data, nlen data < W63 -> Exists (fun b => 128 <= b) data -> exists a, hex_dec data = Err a.
+Proof. exact hex_dec_nonascii. Qed.
+Check hex_decode_str_total :
+  forall data, nlen data < W63 -> Exists (fun b => 128 <= b) data -> exists a, hex_dec data = Err a.
+Print Assumptions hex_decode_str_total.
+Example hex_decode_str_nontrivial : hex_dec [52; 195; 169; 53] = Err 2.
+Proof. vm_compute. reflexivity. Qed.
